@@ -170,7 +170,7 @@ ENUM_VOCAB = [("PUSH", "0"), ("PUSH", "1"), ("PUSH", "20"), ("DUP1", None), ("DU
               ("SLOAD", None), ("SSTORE", None), ("KECCAK256", None), ("AND", None)]
 ENUM_MEM = [("MSTORE", None), ("MSTORE8", None), ("MLOAD", None), ("SLOAD", None), ("SSTORE", None), ("DUP1", None), ("DUP2", None),
             ("SWAP1", None), ("KECCAK256", None)]
-ENUM_FLAGS = [[], ["-no-simplification"]]
+ENUM_FLAGS = [[], ["-no-simplification"], ["-pop-uninterpreted"]]
 ENUM_TASKS = len(ENUM_VOCAB) * len(ENUM_FLAGS) + len(ENUM_MEM)
 
 
@@ -201,6 +201,8 @@ def task(spec_):
         flags.append("-push0")
     if ro.random() < 0.25:
         flags.append("-size")
+    if ro.random() < 0.15:
+        flags.append("-pop-uninterpreted")       # an encoder option that changes the specification itself (POPs become instructions)
     blocks = [gen_block(rw) for _ in range(6)]
     if i < ENUM_TASKS:
         blocks, flags = enum_blocks(i)
